@@ -23,6 +23,11 @@ type reachCursor struct {
 	adjacentIdx int
 	reach       cardinality.Duplex[uint64]
 	ancestor    *reachCursor
+
+	// partial is set when the cursor skipped a component that was already visited on another branch of the same
+	// search and whose reach could not be rolled in. Such a cursor's reach bitmap is a subset of the component's true
+	// reach and must not be cached.
+	partial bool
 }
 
 // Complete merges the reach bitmap of this cursor into its ancestor’s bitmap.
@@ -31,6 +36,11 @@ type reachCursor struct {
 func (s *reachCursor) Complete() {
 	if s.ancestor != nil {
 		s.ancestor.reach.Or(s.reach)
+
+		// The root cursor's reach doubles as the visited set of the whole search and is therefore always complete
+		if s.partial && s.ancestor.ancestor != nil {
+			s.ancestor.partial = true
+		}
 	}
 }
 
@@ -225,8 +235,10 @@ func (s *ReachabilityCache) componentReachDFS(component uint64, direction graph.
 			// Complete the cursor to roll up reach cardinalities
 			nextCursor.Complete()
 
-			// Update the cache with this component's reach
-			s.cacheComponentReach(nextCursor, direction)
+			// Update the cache with this component's reach unless parts of it are missing
+			if !nextCursor.partial {
+				s.cacheComponentReach(nextCursor, direction)
+			}
 		} else if rootCursor.reach.CheckedAdd(nextAdjacentComponent) {
 			// This is a component not yet visited, check if it is cached. If it
 			// is cached, Or(...) its reach and if not traverse into it.
@@ -234,6 +246,14 @@ func (s *ReachabilityCache) componentReachDFS(component uint64, direction graph.
 				nextCursor.reach.Or(cachedReach)
 			} else {
 				stack.PushBack(s.newReachCursor(nextAdjacentComponent, direction, nextCursor))
+			}
+		} else if nextCursor != rootCursor {
+			// The component was already visited on another branch, so its descendants will not be rolled up into
+			// this cursor. Take its reach from the cache if it is there, otherwise this cursor stays incomplete.
+			if cachedReach, cached := s.cachedComponentReach(nextAdjacentComponent, direction); cached {
+				nextCursor.reach.Or(cachedReach)
+			} else {
+				nextCursor.partial = true
 			}
 		}
 	}
